@@ -179,3 +179,55 @@ Proof.
     + rewrite unquote_items_byt_head. apply N.eqb_sym.
     + rewrite unquote_items_raw_head. apply N.eqb_sym.
 Qed.
+
+(* ---- a NUL in the decoded string comes from a raw NUL or from "%00" ---- *)
+Lemma hexval_0 a : hexval a = Some 0 -> a = 48.
+Proof.
+  unfold hexval. repeat match goal with |- context [if ?c then _ else _] => destruct c eqn:? end;
+    intros H; inversion H;
+    repeat match goal with H : _ && _ = true |- _ => apply andb_true_iff in H; destruct H end;
+    repeat match goal with H : (_ <=? _) = true |- _ => apply N.leb_le in H end; lia.
+Qed.
+
+Lemma contains_cons p x s : contains p s = true -> contains p (x :: s) = true.
+Proof. rewrite !contains_iff. intros [a [b ->]]. exists (x :: a), b. reflexivity. Qed.
+
+Lemma items_zero_n n : forall s, (length s <= n)%nat ->
+  forall it, In it (items s) -> item_val it = 0 -> In 0 s \/ contains [PCT; 48; 48] s = true.
+Proof.
+  induction n as [|n IH]; intros s Hl it Hin Hz.
+  - destruct s; [destruct Hin | cbn in Hl; lia].
+  - destruct s as [|c r]; [destruct Hin|]. cbn [items] in Hin. cbn [length] in Hl.
+    assert (Hrec : forall r', (length r' <= n)%nat -> In it (items r') ->
+                   (In 0 r' \/ contains [PCT; 48; 48] r' = true)) by (intros; eapply IH; eauto).
+    assert (Hlift : In 0 r \/ contains [PCT; 48; 48] r = true -> In 0 (c :: r) \/ contains [PCT; 48; 48] (c :: r) = true).
+    { intros [H|H]; [left; now right | right; now apply contains_cons]. }
+    destruct (c =? PCT) eqn:Ec.
+    + apply N.eqb_eq in Ec. subst c.
+      assert (Hplain : In it (Byt PCT :: items r) -> In 0 (PCT :: r) \/ contains [PCT; 48; 48] (PCT :: r) = true).
+      { intros [<-|H]; [cbn in Hz; discriminate Hz|]. apply Hlift, Hrec; [lia|exact H]. }
+      destruct r as [|a [|b r']]; [now apply Hplain | now apply Hplain |].
+      destruct (hexval a) as [x|] eqn:Ea; [|now apply Hplain].
+      destruct (hexval b) as [y|] eqn:Eb; [|now apply Hplain].
+      destruct Hin as [<-|Hin].
+      * cbn [item_val] in Hz. assert (x = 0) by lia. assert (y = 0) by lia. subst.
+        apply hexval_0 in Ea, Eb. subst. right. reflexivity.
+      * cbn [length] in Hl. destruct (Hrec r' ltac:(lia) Hin) as [H|H].
+        -- left. right. right. right. exact H.
+        -- right. now do 3 apply contains_cons.
+    + destruct (c <? 128) eqn:E128.
+      * destruct Hin as [<-|Hin]; [cbn [item_val] in Hz; subst c; left; now left|].
+        apply Hlift, Hrec; [lia|exact Hin].
+      * destruct Hin as [<-|Hin]; [cbn [item_val] in Hz; subst c; discriminate E128|].
+        apply Hlift, Hrec; [lia|exact Hin].
+Qed.
+
+Theorem unquote_no_nul s : mem_N 0 s = false -> contains [PCT; 48; 48] s = false -> ~ In 0 (unquote s).
+Proof.
+  intros H1 H2 Hin.
+  assert (Hf : In 0 (fa (unquote s))) by (apply filter_In; split; [exact Hin|reflexivity]).
+  rewrite unquote_ascii in Hf. apply filter_In in Hf as [Hf _]. apply in_map_iff in Hf as [it [Hz Hit]].
+  destruct (items_zero_n (length s) s (le_n _) it Hit Hz) as [H|H].
+  - apply mem_N_false in H1. contradiction.
+  - congruence.
+Qed.
